@@ -50,6 +50,12 @@ def gen_valid(rng):
             return nm
         return str(k)
     text = FR.spec_text(f, st, head=rng.random() < 0.8, semi=rng.random() < 0.7, bound=bound)
+    if rng.random() < 0.15:
+        # declarations in the text of variables that are declared through the API as well (declaring a name again is legal)
+        decls = []
+        for v in rng.sample(VARS, rng.randint(1, len(VARS))):
+            decls.append(rng.choice(["float %s", "input float %s", "output float %s", "float %s\nfloat %s"]).replace("%s", v))
+        text = "\n".join(decls) + "\n" + text
     if units:
         # mixed-unit renderings may violate begin<=end only if units are mixed on one interval; keep text as is
         pass
